@@ -258,7 +258,75 @@ fn test(c: &Case, st: &mut Stats) -> TestResult {
     Ok(())
 }
 
+/// One buffer, `frames` frames of `len` bytes pushed and pulled one after the other: the volume that
+/// has passed through a single `TcpBuffer` (more than 2^32 bytes with 65 536 maximum-size frames)
+/// is the variable, nothing is ever pending for long.
+#[derive(Debug, Clone, Serialize, Deserialize)]
+pub struct Throughput {
+    pub frames: u32,
+    pub len: u32,
+    /// push every frame in two pieces, cut at an offset that moves with the frame number
+    pub split: bool,
+}
+
+fn throughput_test(c: &Throughput, st: &mut Stats) -> TestResult {
+    st.eval();
+    let mut buf = TcpBuffer::new();
+    let l = c.len as usize;
+    let mut chunk = vec![0u8; 2 + l];
+    chunk[0] = (l >> 8) as u8;
+    chunk[1] = l as u8;
+    for (j, b) in chunk[2..].iter_mut().enumerate() {
+        *b = (j as u8).wrapping_mul(13) ^ 0x5c;
+    }
+    let mut total: u64 = 0;
+    for i in 0..c.frames {
+        if stopped() {
+            return Ok(());
+        }
+        // stamp the frame number into the payload so that a repeated or skipped frame shows
+        if l >= 4 {
+            chunk[2..6].copy_from_slice(&i.to_be_bytes());
+        }
+        if c.split {
+            let at = 1 + (i as usize * 7919) % (chunk.len() - 1);
+            guard(|| buf.push_data(&chunk[..at])).map_err(|p| Fail::new("c14-panic", format!("push_data panicked in frame {} after {} bytes through the buffer: {}", i, total, p)))?;
+            let early = guard(|| buf.pull_data()).map_err(|p| Fail::new("c14-panic", format!("pull_data panicked in frame {} after {} bytes: {}", i, total, p)))?;
+            ensure!(early.is_none(), "c14-spurious", "frame {}: pull returned {} bytes while only {} of {} stream bytes of the frame were pushed ({} bytes through the buffer so far)", i, early.map(|e| e.len()).unwrap_or(0), at, chunk.len(), total);
+            guard(|| buf.push_data(&chunk[at..])).map_err(|p| Fail::new("c14-panic", format!("push_data panicked in frame {} after {} bytes through the buffer: {}", i, total, p)))?;
+        } else {
+            guard(|| buf.push_data(&chunk)).map_err(|p| Fail::new("c14-panic", format!("push_data panicked in frame {} after {} bytes through the buffer: {}", i, total, p)))?;
+        }
+        total += chunk.len() as u64;
+        let got = guard(|| buf.pull_data()).map_err(|p| Fail::new("c14-panic", format!("pull_data panicked in frame {} after {} bytes: {}", i, total, p)))?;
+        match got {
+            Some(f) => ensure!(f[..] == chunk[2..], "c14-altered", "frame {} ({} bytes through the buffer): pulled {} bytes starting {}, pushed {} bytes starting {}", i, total, f.len(), hex_short(&f), l, hex_short(&chunk[2..])),
+            None => return Err(Fail::new("c14-lost", format!("frame {} was pushed completely ({} bytes through the buffer) and pull_data returns nothing", i, total))),
+        }
+        let again = guard(|| buf.pull_data()).map_err(|p| Fail::new("c14-panic", format!("pull_data panicked: {}", p)))?;
+        ensure!(again.is_none(), "c14-duplicated", "after frame {} was pulled a second pull returns {} more bytes", i, again.map(|e| e.len()).unwrap_or(0));
+    }
+    st.class(if total > u32::MAX as u64 { "more than 2^32 bytes through one buffer" } else { "long-lived buffer" });
+    st.nontrivial(digest(&(c.frames, c.len, c.split)));
+    st.sample("throughput", 2, || json!({"frames": c.frames, "len": c.len, "split": c.split, "stream_bytes": total}));
+    Ok(())
+}
+
 pub fn run(ctx: &Ctx) -> EvidenceMeta {
+    // volume through one buffer
+    {
+        let items: Vec<Throughput> = if ctx.quick() {
+            vec![Throughput { frames: 66_000, len: 65_535, split: false }, Throughput { frames: 66_200, len: 65_535, split: true }, Throughput { frames: 3_000_000, len: 0, split: false }]
+        } else {
+            vec![
+                Throughput { frames: 140_000, len: 65_535, split: false },
+                Throughput { frames: 140_000, len: 65_534, split: true },
+                Throughput { frames: 9_000_000, len: 0, split: false },
+                Throughput { frames: 5_000_000, len: 1_000, split: true },
+            ]
+        };
+        ctx.enumerate("throughput", &items, throughput_test);
+    }
     // exhaustive: every split pattern of short streams x three pull policies
     let streams: Vec<Vec<(u32, u64)>> = vec![
         vec![(0, 1)],
@@ -424,7 +492,11 @@ pub fn run(ctx: &Ctx) -> EvidenceMeta {
     }
 }
 
-pub fn replay(_check: &str, case: &Value, st: &mut Stats) -> Result<TestResult, String> {
+pub fn replay(check: &str, case: &Value, st: &mut Stats) -> Result<TestResult, String> {
+    if check == "throughput" {
+        let c: Throughput = parse_case(case)?;
+        return Ok(throughput_test(&c, st));
+    }
     let c: Case = parse_case(case)?;
     Ok(test(&c, st))
 }
